@@ -387,3 +387,53 @@ func printIdent(p *Print) string {
 	}
 	return s
 }
+
+// Braced returns the braced placeholder string of a list of message parts (a plural case body, or a whole
+// non-plural message), using the names of info.
+func (info *MsgInfo) Braced(ns []Node) string {
+	var b strings.Builder
+	for _, c := range ns {
+		switch c := c.(type) {
+		case *Raw:
+			for _, p := range SplitMsgText(c.Text) {
+				if p.Tag {
+					b.WriteString("{" + info.TagNames[p.Text] + "}")
+				} else {
+					b.WriteString(p.Text)
+				}
+			}
+		case *Special:
+			b.WriteString(map[string]string{"sp": " ", "nil": "", `\n`: "\n", `\r`: "\r", `\t`: "\t", "lb": "{", "rb": "}"}[c.Name])
+		case *Plural:
+		default:
+			b.WriteString("{" + info.Names[c] + "}")
+		}
+	}
+	return b.String()
+}
+
+// ParseParts splits a braced placeholder string into text and placeholder parts.
+func ParseParts(s string) []TrPart {
+	var out []TrPart
+	i := 0
+	for i < len(s) {
+		if s[i] == '{' {
+			j := i + 1
+			for j < len(s) && (s[j] >= 'A' && s[j] <= 'Z' || s[j] >= '0' && s[j] <= '9' || s[j] == '_') {
+				j++
+			}
+			if j < len(s) && s[j] == '}' && j > i+1 {
+				out = append(out, TrPart{Ph: s[i+1 : j]})
+				i = j + 1
+				continue
+			}
+		}
+		if len(out) > 0 && out[len(out)-1].Ph == "" {
+			out[len(out)-1].Text += s[i : i+1]
+		} else {
+			out = append(out, TrPart{Text: s[i : i+1]})
+		}
+		i++
+	}
+	return out
+}
